@@ -118,9 +118,23 @@ NEEDS = {
     "C19F": "a one-unit reference, false_pos=True and magnitude exactly 1.0",
     "C20E": ">= 2 different files in one run, the later one finishing parsing first (thread timing)",
     "C20F": "-k without -c together with -o or -j",
+    "C01E": "a unit whose duration overflows single precision (about 3.4e38): NaN candidate costs",
+    "C04E": "Levenshtein labels where the shorter one is the longer one with a block of a repetition deleted ('ab'/'aab', '10'/'100')",
+    "C04F": "unlabelled units, a table-less dissimilarity and a recomputation through compute_disorder",
+    "C08E": "cylp present but unloadable: `import cylp` raises a plain ImportError (not ModuleNotFoundError)",
+    "C09E": "a short unit followed by a longer one in one annotator, both disjoint from a unit of the alphabetically later annotator, the far pair being optimal",
+    "C09F": ">= 4 annotators, one of them without units and exactly second in alphabetical order",
+    "C11E": ">= 3 annotators and a delta_empty such as 0.85 / 1.45 / 2.9 for which float32(C(n,2)*delta)/C(n,2) exceeds float32(delta)",
+    "C11F": ">= 3 annotators, one without units, and two others whose units match",
+    "C12E": "more chance samples than twice the worker threads, not a multiple of the batch size",
+    "C12F": "beta != 1",
+    "C17E": "an alignment with zero unitary alignments",
+    "C17F": "check_validity=True together with a non-None disorder argument",
+    "C18E": "a CSV file in which an annotator's rows come in two or more non-contiguous blocks",
+    "C18F": "a carriage return inside an annotator or label",
 }
 EXTRA_CHECKS = {"C09B": ["C04", "C02"], "C04B": ["C14"], "C10A": ["C01"], "C14B": ["C13"], "C01B": ["C08"], "C08A": ["C01"],
-                "C04D": ["C02", "C07"], "C07C": ["C02"], "C09C": ["C07"], "C09D": ["C02"], "C14D": ["C13"], "C13C": ["C14"], "C18C": ["C13"]}
+                "C04D": ["C02", "C07"], "C07C": ["C02"], "C09C": ["C07"], "C09D": ["C02"], "C14D": ["C13"], "C13C": ["C14"], "C18C": ["C13"], "C09E": ["C07", "C02"]}
 
 
 def sh(cmd):
